@@ -165,6 +165,73 @@ def viewNodeWith (pns : Bool) (s : Scenario) (n : Node) : Option ExNode :=
 
 theorem viewNodeWith_true (s : Scenario) (n : Node) : viewNodeWith true s n = viewNode s n := rfl
 
+/-! ### Nodes whose Node object lacks well-known labels
+
+`StateNode.Labels()` of a node Karpenter does not manage is the label map of the Node object — nothing derives a capacity
+type, zone, instance type, arch or os label for it.  `absent` lists the keys the object does not carry.
+`getCompatibleDaemonPods` -> `isDaemonPodCompatibleWithNode` checks the daemon pod's requirements against
+`NewLabelRequirements(node.Labels())` with NO undefined key allowed (`Compatible` without options), so a daemonset that
+selects on a label the node lacks is not counted (`dsCountedWith` on the reduced labels). -/
+
+def viewNodeAbs (pns : Bool) (absent : List String) (s : Scenario) (n : Node) : Option ExNode :=
+  match s.it? n.it with
+  | none => none
+  | some it =>
+    let ls := (viewLabels s n).filter (fun kv => !absent.contains kv.1)
+    let taints := viewTaints s n
+    let bound := n.pods
+    let bCPU := bound.foldl (fun a p => a + p.cpu) 0
+    let bMem := bound.foldl (fun a p => a + p.mem) 0
+    let daemons := s.daemonsets.filter (fun d => dsCountedWith pns d ls taints)
+    let bd := bound.filter (·.daemon)
+    let rdCPU := max 0 (daemons.foldl (fun a d => a + d.cpu) 0 - bd.foldl (fun a p => a + p.cpu) 0)
+    let rdMem := max 0 (daemons.foldl (fun a d => a + d.mem) 0 - bd.foldl (fun a p => a + p.mem) 0)
+    let rdPods : Int := max 0 ((daemons.length : Int) - (bd.length : Int))
+    some { labels := ls, taints := taints,
+           remCPU := it.allocCPU - bCPU - rdCPU, remMem := it.mem - bMem - rdMem,
+           remPods := it.pods - (bound.length : Int) - rdPods,
+           ports := bound.flatMap (·.hostPorts) }
+
+/-! ### Volume topology alternatives (`VolumeTopology.GetRequirements`, the loop of `ExistingNode.CanAdd`)
+
+Every volume of the pod contributes its OR-ed topology terms (PersistentVolume node-affinity terms, StorageClass
+allowedTopologies); the alternatives of the pod are the cross product over its volumes, keeping only combinations whose
+requirements intersect unless that leaves none.  `ExistingNode.CanAdd` admits the pod when SOME alternative is compatible
+with the node's labels narrowed by the pod's own requirements — a failing alternative is skipped, not final. -/
+
+/-- `mergeVolumeRequirementAlternatives` -/
+def mergeAlts (alts vol : List (List KExpr)) : List (List KExpr) :=
+  let compat := alts.flatMap (fun a => (vol.filter (fun t => (podReqs a).intersects (podReqs t))).map (fun t => a ++ t))
+  if compat.isEmpty then alts.flatMap (fun a => vol.map (fun t => a ++ t)) else compat
+
+/-- `VolumeTopology.GetRequirements` over the per-volume term lists (terms without expressions are dropped, a volume without
+    terms contributes nothing); `[]` = the pod has no volume requirements -/
+def volumeAlts (vols : List (List (List KExpr))) : List (List KExpr) :=
+  let r := vols.foldl (fun acc terms =>
+    let ts := terms.filter (fun t => !t.isEmpty)
+    if ts.isEmpty then acc else mergeAlts acc ts) [[]]
+  if r.length == 1 && r.all (·.isEmpty) then [] else r
+
+/-- the OR-ed topology terms of every volume of a scenario pod (`VolumeTopology.getRequirements`: a bound claim reads its
+    PersistentVolume's node affinity, an unbound one its StorageClass's allowedTopologies; pods whose claims do not resolve
+    never reach `CanAdd`) -/
+def podVolumeTerms (s : Scenario) (p : Pod) : List (List (List KExpr)) :=
+  p.volumes.map (fun v =>
+    match s.pvc? p.ns v.claim with
+    | none => []
+    | some c =>
+      if c.volumeName != "" then (match s.pv? c.volumeName with | some pv => pv.terms | none => [])
+      else (match s.storageClass? c.storageClass with | some sc => sc.topologies | none => []))
+
+/-- `tryVolumeAlternative` up to the topology step: the node's label requirements narrowed by the pod's requirements must be
+    compatible with the alternative (no undefined key allowed) -/
+def volAltOK (n : ExNode) (p : PodD) (alt : List KExpr) : Bool :=
+  (Reqs.add (labelReqs n.labels) ((podReqs p.exprs).map (·.2))).compatible (podReqs alt) []
+
+/-- `ExistingNode.CanAdd` with the volume alternatives: SOME alternative must be compatible -/
+def existingCanAddV (n : ExNode) (p : PodD) (alts : List (List KExpr)) : Bool :=
+  existingCanAdd n p && (alts.isEmpty || alts.any (volAltOK n p))
+
 /-! ## 2. `Scheduler.add` -/
 
 /-- state of a pass: the existing nodes (in the scheduler's order) and the NodeClaims opened so far -/
@@ -211,6 +278,15 @@ def apply (ops : ClaimOps κ) (s : Pass κ) (p : PodD) : Decision → Pass κ
     | some c => { s with claims := s.claims ++ [ops.add c p] }
     | none => s
   | .fail => s
+
+/-- `Scheduler.add` for a pod that mounts volumes: the existing nodes are asked with the pod's volume alternatives -/
+def addDecisionV (ops : ClaimOps κ) (s : Pass κ) (p : PodD) (alts : List (List KExpr)) : Decision :=
+  match firstIdx (fun e => existingCanAddV e p alts) s.existing with
+  | some i => .existing i
+  | none =>
+    match firstIdx (fun c => ops.canAdd c p) s.claims with
+    | some j => .inflight j
+    | none => if (ops.openFor p).isSome then .openNew else .fail
 
 /-- a pass over a queue of pods (pods of the property's class are never relaxed: one attempt each) -/
 def runPass (ops : ClaimOps κ) : Pass κ → List PodD → List (PodD × Decision × Pass κ)
